@@ -120,6 +120,42 @@ def list_level(run, v):
     return len(hs), nev, validated, len(rejected), tstates
 
 
+def concurrent_level(run, v):
+    """'resolved exactly once', 'a wrong-type acknowledgement leaves the entry as it is' and 'every due entry fires at the sweep' also
+    when acknowledgements, registrations and sweeps overlap: histories recorded from goroutines hammering the real queue (random ones
+    and focused ones: a burst of wrong-type acknowledgements on a due entry while a sweep runs) must have a linearization that is
+    a behaviour of AckQueue (Lin.tla; shared with C20, which owns the remaining objects and the race detector)."""
+    import subprocess
+    thorough = run.tier == "thorough"
+    conc = run.gobuild("conc")
+    hpath = os.path.join(run.scratch, "c04-hist.ndjson")
+    jobs = []
+    for i in range(4):
+        e = dict(os.environ, VERIF_SEED=str(run.seed * 1000 + 70 + i))
+        jobs.append(subprocess.Popen([conc, "-out", hpath + ".%d" % i, "-n", str(12 if not thorough else 120), "-threads", "4", "-ops", str(5 + i % 2)],
+                                     stdout=subprocess.PIPE, stderr=subprocess.PIPE, text=True, env=e, cwd=run.scratch))
+    n = 0
+    with open(hpath, "w") as out:
+        for i, j in enumerate(jobs):
+            so, se = j.communicate(timeout=1800)
+            if j.returncode != 0:
+                raise vlib.Inconclusive("conc driver exited %d: %s" % (j.returncode, se[-2000:]))
+            for ln in open(hpath + ".%d" % i):
+                h = json.loads(ln)
+                if h.get("kind") == "ackq":
+                    n += 1
+                    h["n"] = n
+                    out.write(json.dumps(h, separators=(",", ":")) + "\n")
+    validated, rejected, tstates = vlib.validate_scenarios(run, "Lin", "Lin.cfg", hpath, marker='"kind":', chunk_events=60, timeout=1800,
+                                                           max_rejections=3)
+    for rj in rejected:
+        h = rj["scenario"][0] if rj["scenario"] else {}
+        v.add("not-linearizable:ackq", "concurrent history on the in-flight table has no linearization that is a behaviour of AckQueue: %s"
+              % json.dumps(sorted(h.get("ops", []), key=lambda o: o["call"]))[:2500], {"kind": "history", "history": h})
+    run.log("concurrent level: %d in-flight table histories, %d rejected" % (n, len(rejected)))
+    return n, validated, len(rejected), tstates
+
+
 def check(run):
     thorough = run.tier == "thorough"
     run.model_check("MC_AckQueue", "MC_AckQueue.cfg")
@@ -169,6 +205,9 @@ def check(run):
     ln, lev, lval, lrej, lts = list_level(run, v)
     validated += lval
     tstates += lts
+    cn, cval, crej, cts = concurrent_level(run, v)
+    validated += cval
+    tstates += cts
     rc = v.finish()
     nontriv = sum(1 for s in scns if sum(1 for c in s if c["op"] == "insert") >= 1)
     vlib.write_evidence(run, {
@@ -184,14 +223,17 @@ def check(run):
                        "rule": "bare expiration.List: exhaustive depth 3 from empty over Insert/Delete of 2 values x deadlines "
                                "{1.400,1.450,1.499,1.500,2.400}s and sweeps at {1,2,3}s; simulated walks after preloading three same-second items "
                                "in every order of their sub-second deadlines, or three values on one / adjacent deadlines"},
+        "concurrent_level": {"histories": cn, "rejections": crej,
+                             "rule": "goroutines hammering the real queue (random insert / ack of any type / sweep on 2 sessions x 2 ids; and focused: "
+                                     "a burst of wrong-type acknowledgements on a due entry while a sweep runs, then a sweep alone); Lin.tla searches a linearization"},
         "trace_spec_states": tstates,
-        "rejections": len(rejected) + lrej,
+        "rejections": len(rejected) + lrej + crej,
         "exhaustive": True,
         "samples": [scns[0], scns[len(scns) // 3], scns[-1], {"trace_excerpt": vlib.head_events(tpath, 6)}],
     }, ["deadlines are honoured to the second: a sweep at `now` must fire entries with now >= deadline+1s, must not fire "
         "entries with now <= deadline-1s, may do either in between",
         "callbacks are attributed by a tag captured in the closure passed to Insert; no access to the queue's internals",
-        "concurrent use of the table is covered by C20 (linearizability against the same AckQueue module)"],
+        "concurrent use of the table: linearizability of recorded histories against the same AckQueue module (here for the table; C20 for every shared object, with the race detector)"],
         violations=v.n_new)
     run.log("validated %d histories, %d rejected (%d known)" % (validated, len(rejected), v.n_known))
     return rc
@@ -199,6 +241,15 @@ def check(run):
 
 def replay(run, path):
     rp = json.load(open(path))
+    if rp.get("kind") == "history":
+        tp = os.path.join(run.scratch, "h.ndjson")
+        with open(tp, "w") as f:
+            f.write(json.dumps(rp["history"]) + "\n")
+        ok, line, detail, _ = run.validate("Lin", "Lin.cfg", tp)
+        print("replay: recorded history is %s" % ("linearizable" if ok else "NOT linearizable"))
+        if not ok:
+            print("VIOLATION property=C04 replay=%s" % path)
+        return 0 if ok else 1
     if rp.get("kind") == "list":
         spath = os.path.join(run.scratch, "scenarios.ndjson")
         with open(spath, "w") as f:
